@@ -24,7 +24,7 @@ pub static META: PropertyMeta = PropertyMeta {
     ],
     floor_evaluations: 500,
     floor_nontrivial: 100,
-    required_counters: &["definitions_checked", "functions_with_spills", "coalesced_or_plain_moves_seen", "max_live_set"],
+    required_counters: &["definitions_checked", "functions_with_spills", "coalesced_or_plain_moves_seen", "max_live_set", "functions_with_multi_def_instructions"],
 };
 
 pub static PROP: Prop = Prop {
@@ -449,6 +449,29 @@ fn pressure_script(rng: &mut rand::rngs::StdRng) -> (String, Vec<u8>, u64) {
     (src, data, expected)
 }
 
+/// A contract method that keeps `n` values alive across storage-word reads (`srw` defines two
+/// registers at once: the word and the "slot was set" flag). Only compiled, not run.
+fn storage_pressure_contract(rng: &mut rand::rngs::StdRng) -> String {
+    use rand::Rng;
+    let n = rng.gen_range(3..=24usize);
+    let reads = rng.gen_range(1..=3usize);
+    let mut src = String::from("contract;\nabi A {\n    #[storage(read)]\n    fn f(x: u64, y: u64, k: b256) -> u64;\n}\nimpl A for Contract {\n    #[storage(read)]\n    fn f(x: u64, y: u64, k: b256) -> u64 {\n");
+    for k in 0..n {
+        let c: u64 = rng.gen_range(1..1000);
+        src.push_str(&format!("        let v{k}: u64 = (x & 0xffffu64) * {c}u64 + (y & 0xffu64) + {k}u64;\n"));
+    }
+    for r in 0..reads {
+        src.push_str(&format!("        let w{r}: u64 = __state_load_word(k);\n"));
+    }
+    let mut terms: Vec<String> = (0..n).map(|k| format!("v{k}")).collect();
+    terms.extend((0..reads).map(|r| format!("w{r}")));
+    for i in (1..terms.len()).rev() {
+        terms.swap(i, rng.gen_range(0..=i));
+    }
+    src.push_str(&format!("        {}\n    }}\n}}\n", terms.join(" + ")));
+    src
+}
+
 fn shard(ctx: &ShardCtx) -> ShardResult {
     let mut res = ShardResult::default();
     let mut am = Amortised::new(&ctx.work());
@@ -486,6 +509,34 @@ fn shard(ctx: &ShardCtx) -> ShardResult {
                 }
                 for rec in &recs {
                     absorb(rec, &format!("{} build of a synthetic pressure script", profile.name()), &mut res, &mut seen);
+                }
+            }
+            i += 1;
+            continue;
+        }
+        if i % 4 == 3 {
+            // synthetic contract with values live across storage-word reads (compiled only)
+            let src = storage_pressure_contract(&mut rng);
+            res.count("mode.synthetic_storage_contract");
+            for profile in Profile::BOTH {
+                ctx.begin_case(i, &format!("// C08 {} synthetic storage contract\n{src}", profile.name()), &res);
+                let (r, recs) = collect(|| catch(AssertUnwindSafe(|| am.compile("gencase", &src, profile))));
+                ctx.end_case();
+                match r {
+                    Ok(Ok(c)) => {
+                        res.count("storage_contracts_compiled");
+                        am.remove(&c)
+                    }
+                    _ => {
+                        res.count("rejected");
+                        let _ = std::fs::remove_dir_all(am.last_dir());
+                    }
+                }
+                for rec in &recs {
+                    if rec.ops.iter().any(|o| o.trim_start().starts_with("srw ")) {
+                        res.count("functions_with_multi_def_instructions");
+                    }
+                    absorb(rec, &format!("{} build of a synthetic storage contract", profile.name()), &mut res, &mut seen);
                 }
             }
             i += 1;
